@@ -1,6 +1,7 @@
 package checks
 
 import (
+	"oss.terrastruct.com/d2/d2parser"
 	"fmt"
 	"strconv"
 	"time"
@@ -30,6 +31,37 @@ func init() {
 			t0 := time.Now()
 			r := c01Depth(in)
 			fmt.Printf("n=%d time=%v outcome=%s\n", n, time.Since(t0), r.Outcome)
+		}
+	}
+}
+
+func init() {
+	eng.Internal["dbg-c04"] = func(args []string) {
+		for _, a := range args {
+			src := a
+			if u, err := strconv.Unquote(a); err == nil {
+				src = u
+			}
+			g, _, err := CompileFS("index.d2", src, c04Files)
+			fmt.Printf("== %q err=%v\n", src, err)
+			if g != nil {
+				for _, o := range g.Objects {
+					fmt.Printf("  obj %s label=%q\n", o.AbsID(), o.Label.Value)
+				}
+				for _, e := range g.Edges {
+					fmt.Printf("  edge %s\n", e.AbsID())
+				}
+			}
+		}
+	}
+}
+
+func init() {
+	eng.Internal["dbg-mapkey"] = func(args []string) {
+		for _, a := range args {
+			mk, err := d2parser.ParseMapKey(a)
+			k, err2 := d2parser.ParseKey(a)
+			fmt.Printf("%q: mapkey=%v err=%v | key=%v err=%v\n", a, mk != nil, err, k != nil, err2)
 		}
 	}
 }
